@@ -477,6 +477,9 @@ func historyCase(e *env, c *mon.Case, kind string, pat []string, q int, f *force
 
 		// the bytes this call is going to be served
 		j := c.R.Intn(3)
+		if c.R.Intn(4) == 0 { // a long run of rejected blocks in front of this call's block (the dimension of c12.runs, here on a kept object)
+			j = runLens[c.R.Intn(len(runLens)-1)]
+		}
 		var stream []byte
 		var kinds []string
 		ru := ruleSM2Nonce
@@ -487,7 +490,7 @@ func historyCase(e *env, c *mon.Case, kind string, pat []string, q int, f *force
 		}
 		stream, kinds = rejectedPrefix(c.R, ru, j)
 		stream = append(stream, c.R.Bytes(32*tailBlocks)...)
-		c.Detail(fmt.Sprintf("call%d_stream", i+1), fmt.Sprintf("%s: %x", strings.Join(kinds, ","), head(stream, 32*(j+2))))
+		c.Detail(fmt.Sprintf("call%d_stream", i+1), fmt.Sprintf("%d rejected first; %s: %x", j, strings.Join(headStr(kinds, 20), ","), head(stream, 32*minInt(j+2, 20))))
 
 		var src *mon.Script
 		off, calls0 := 0, 0
